@@ -38,8 +38,8 @@ def stepOp (h : Hist) (op : Sexp) : Hist × String :=
     | some v, some n =>
       let imp := h.reimport
       match h.record v n with
-      | some h' => (h', s!"{imp.total},{imp.total},{bit (imp.max == h.max)}/ok")
-      | none => (h, s!"{imp.total},{imp.total},{bit (imp.max == h.max)}/err")
+      | some h' => (h', s!"{imp.total},{imp.total},{bit (imp.max == h.max)},1/ok")
+      | none => (h, s!"{imp.total},{imp.total},{bit (imp.max == h.max)},1/err")
     | _, _ => (h, "bad-op")
   | .list [.atom "merge"] =>
     let (m, dropped) := (Hist.new h.shape.lowest h.shape.highest h.shape.sigfigs).merge h
